@@ -359,10 +359,14 @@ func (dq *Deque[T]) addAfter(value T, after *element[T]) error {
 	it.prev.next = it
 	it.next.prev = it
 
-	if after.isRoot() {
+	// forward waiters (nfront) wait for the next pointer of the last
+	// element (or of the root, when empty) to change; reverse
+	// waiters (nback) for the prev pointer of the first element (or
+	// of the root).
+	if it.next.isRoot() {
 		dq.nfront.Signal()
 	}
-	if after.prev.isRoot() {
+	if it.prev.isRoot() {
 		dq.nback.Signal()
 	}
 	dq.updates.Signal()
